@@ -270,9 +270,17 @@ Definition asum (l : list apipe) : outcome apipe :=
    unrelated to the `name` of the pipelines. *)
 Record pdef := { d_items : list pitem; d_post : list ppost; d_fin : list pfin; d_vars : dict;
                  d_prio : Z; d_name : option str }.
-Inductive rent (A : Type) := RObj (a : A) | RCall (d : pdef).
+Inductive rent (A : Type) :=
+| RObj (a : A)               (* a registered pipeline object *)
+| RCall (d : pdef)           (* a callable / YAML file: a fresh pipeline with this definition at every resolution *)
+| RSeq (ds : list pdef).     (* a callable with a memory: its k-th call yields the k-th definition (the last one
+                                from then on).  k is the instantiation counter of the whole history, which is
+                                the entry's own call count when it is the only callable / file of the table *)
 Arguments RObj {A} a.
 Arguments RCall {A} d.
+Arguments RSeq {A} ds.
+Definition def_empty : pdef := {| d_items := []; d_post := []; d_fin := []; d_vars := []; d_prio := 0%Z; d_name := None |}.
+Definition seq_pick (c : N) (ds : list pdef) : pdef := nth (N.to_nat c) ds (last ds def_empty).
 Definition tab_nm {A} (e : str * rent A) : option str := Some (fst e).
 Definition apipe_of (d : pdef) : apipe :=
   {| a_items := d_items d; a_post := d_post d; a_fin := d_fin d; a_vars := d_vars d |}.
@@ -301,13 +309,16 @@ Definition renum (c : N) (d : pdef) : pdef :=
      d_vars := d_vars d; d_prio := d_prio d; d_name := d_name d |}.
 Definition aval := (apipe * Z)%type.      (* a pipeline value and its priority *)
 Definition aent_prio (e : str * rent aval) : Z :=
-  match snd e with RObj a => snd a | RCall d => d_prio d end.
+  match snd e with RObj a => snd a | RCall d => d_prio d | RSeq ds => d_prio (seq_pick 0 ds) end.
 Fixpoint ainst_all (c : N) (l : list ((str * rent aval) * str)) : list (aval * str) * N :=
   match l with
   | [] => ([], c)
   | es :: l' => match snd (fst es) with
                 | RObj a => let r := ainst_all c l' in ((a, snd es) :: fst r, snd r)
                 | RCall d => let r := ainst_all (N.succ c) l' in
+                             (((apipe_of (renum c d), d_prio d), snd es) :: fst r, snd r)
+                | RSeq ds => let d := seq_pick c ds in
+                             let r := ainst_all (N.succ c) l' in
                              (((apipe_of (renum c d), d_prio d), snd es) :: fst r, snd r)
                 end
   end.
@@ -326,6 +337,7 @@ Fixpoint conv_tab {A} (l : list A) (t : list (str * rent nat)) : option (list (s
                          | _, _ => None
                          end
   | (s, RCall d) :: t' => match conv_tab l t' with Some r => Some ((s, RCall d) :: r) | None => None end
+  | (s, RSeq ds) :: t' => match conv_tab l t' with Some r => Some ((s, RSeq ds) :: r) | None => None end
   end.
 Fixpoint nths {A} (l : list A) (is : list nat) : option (list A) :=
   match is with
